@@ -1,5 +1,5 @@
 # replay of a bounded stand-in violation: re-run native/c01_backends.py
 import sys
-print("Coherent() | q[2] of 3 on fock: raised ValueError: einstein sum subscripts string included output subscript 'b' which never appeared in an input")
+print("Thermal() | q[2] of 3 on fock: raised ValueError: einstein sum subscripts string included output subscript 'b' which never appeared in an input")
 print('REPLAY-VIOLATION')
 sys.exit(1)
